@@ -77,6 +77,7 @@ func init() {
 		Caps:         map[string]int{"ops_per_run": 40, "rows": 5, "cols": 5, "view_depth": 3, "live_handles": 6},
 		QuickRuns:    250000,
 		ThoroughRuns: 5000000,
+		StallS:       20,
 		Probes: []core.FindingProbe{
 			{ID: "C10-F2", Run: ProbeSparseT},
 		},
@@ -106,6 +107,7 @@ func init() {
 		Caps:         map[string]int{"ops_per_run": 50, "dim": 12, "live_iterators": 3},
 		QuickRuns:    250000,
 		ThoroughRuns: 6000000,
+		StallS:       20,
 	})
 	core.Register(&core.Property{
 		ID:     "C12",
@@ -135,5 +137,6 @@ func init() {
 		Caps:         map[string]int{"mutations_per_run": 16, "dim": 8, "matrix": 4, "ticks_per_loop_site": 3000},
 		QuickRuns:    200000,
 		ThoroughRuns: 5000000,
+		StallS:       20,
 	})
 }
